@@ -1,11 +1,11 @@
 //! Unit `wal_codec` (C10, C14): WAL entry codec round trip, damage is detected (never decoded into different data),
 //! WalReader yields exactly the intact entries in order, recover_entries_after filters by stamp >= t,
 //! a damaged file never hides other files, truncate_before never removes the active file nor a newer entry.
-use crate::deltas::{crc32, delta_id, gen_delta, hex, show_delta};
+use crate::deltas::{crc32, delta_id, gen_delta_auto, hex, show_delta};
 use crate::rng::Rng;
 use crate::Found;
 use redis_sim::replication::state::ReplicationDelta;
-use redis_sim::streaming::wal_store::{InMemoryWalStore, WalError, WalFileReader};
+use redis_sim::streaming::wal_store::{InMemoryWalStore, WalError, WalFileReader, WalStore};
 use redis_sim::streaming::{WalEntry, WalReader, WalRotator};
 use std::panic::{catch_unwind, AssertUnwindSafe};
 
@@ -29,8 +29,8 @@ fn make_entries(rng: &mut Rng, n: u64, small: bool) -> Vec<(ReplicationDelta, Wa
     let mut out = Vec::new();
     for i in 0..n {
         let stamp = match rng.below(6) { 0 => 0, 1 => u64::MAX, 2 => u64::MAX - 1, _ => 1 + rng.below(1000) };
-        let mut d = gen_delta(rng, if small { 10 + i } else { i }, 1 + rng.below(500));
-        if small { while WalEntry::from_delta(&d, 0).map(|e| e.data.len()).unwrap_or(0) > 300 { d = gen_delta(rng, 10 + i, 1 + rng.below(500)); } }
+        let mut d = gen_delta_auto(rng, if small { 10 + i } else { i });
+        if small { while WalEntry::from_delta(&d, 0).map(|e| e.data.len()).unwrap_or(0) > 300 { d = gen_delta_auto(rng, 10 + i); } }
         if let Ok(e) = WalEntry::from_delta(&d, stamp) { out.push((d, e)); }
     }
     out
@@ -38,7 +38,7 @@ fn make_entries(rng: &mut Rng, n: u64, small: bool) -> Vec<(ReplicationDelta, Wa
 
 fn check_roundtrip(rng: &mut Rng, iters: u64) -> Option<Found> {
     for i in 0..iters {
-        let d = gen_delta(rng, i, 1 + rng.below(500));
+        let d = gen_delta_auto(rng, i);
         let stamp = match i % 7 { 0 => 0, 1 => u64::MAX, _ => rng.next() >> rng.below(64) };
         let e = match WalEntry::from_delta(&d, stamp) {
             Ok(e) => e,
@@ -97,13 +97,18 @@ fn check_damage(rng: &mut Rng, iters: u64) -> Option<Found> {
         let tail = crate::deltas::bytes_of(rng, 70000);
         let nbits = enc.len() * 8;
         let bits: Vec<usize> = if enc.len() <= 200 || idx < 3 { (0..nbits).collect() } else { let mut b: Vec<usize> = (0..128).collect(); b.extend((0..300).map(|_| rng.below(nbits as u64) as usize)); b };
+        let mut img_plain = enc.clone();
+        let mut img_tail = enc.clone(); img_tail.extend_from_slice(&tail);
         for bit in bits {
             for with_tail in [false, true] {
-                let mut img = enc.clone();
+                let img: &mut Vec<u8> = if with_tail { &mut img_tail } else { &mut img_plain };
                 img[bit / 8] ^= 1 << (bit % 8);
-                if with_tail { img.extend_from_slice(&tail); }
+                let res = decode(img);
+                let img_now = img[..16].to_vec();
+                img[bit / 8] ^= 1 << (bit % 8);
+                let img = img_now;
                 let field = match bit / 8 { 0..=3 => "length", 4..=11 => "stamp", 12..=15 => "checksum", _ => "payload" };
-                match decode(&img) {
+                match res {
                     Ok(got) => {
                         if !damage_ok(e, enc.len(), &img, &got) || (field != "stamp" && got.is_some()) {
                             let (g, n) = got.unwrap();
